@@ -26,7 +26,10 @@ META = dict(
     level_note="Result and argument binding go through locals of run_task / callback; the model states exactly that, the "
                "evidence for it is the correspondence run. Isolation of objects other than Context reached through the "
                "broker (broker.state, user entries of custom_dependency_context) is by design shared and not claimed.",
-    rule="case = dependency graph x tasks x 1-6 concurrent messages with staggered awaits (see C12); non-trivial iff >= 2 "
+    rule="case = dependency graph x tasks (optionally with a validated parameter whose annotation builds a mutable object "
+         "from the raw value; validate_params on / off) x 1-6 concurrent messages with staggered awaits (see C12), some "
+         "writing to what they were given (labels, args, kwargs, the validated argument), many carrying equal raw "
+         "values; non-trivial iff >= 2 "
          "messages and some resolver sub-context (use_cache=False or nested dependency) of an execution starts its "
          "traversal after another execution wrote its Context into the broker's dict; distinct by case content",
     trusted_base=["model: coq/theories/Deps.v part 3 (hand-written from taskiq/receiver/receiver.py run_task and "
